@@ -72,15 +72,15 @@ var _ evertypes.EVMTxIndexer = (*tapIndexer)(nil)
 
 // history is one crash-enumeration scenario over a window of a recorded chain.
 type history struct {
-	label   string
-	st      *Store
-	cctx    client.Context // TxConfig + Codec only (no node behind it: the indexer never queries)
-	mode    string         // "fresh": empty DB at the first start; "resume": DB holds an earlier clean session
-	preFrom int64          // resume: blocks preFrom..preTo were indexed by the earlier session
-	preTo   int64
-	start   int64 // chain head when the service starts
-	end     int64 // chain head at the end of the history
-	preErr  error // IndexBlock failed while building the earlier session's index
+	label    string
+	st       *Store
+	cctx     client.Context // TxConfig + Codec only (no node behind it: the indexer never queries)
+	mode     string         // "fresh": empty DB at the first start; "resume": DB holds an earlier clean session
+	preFrom  int64          // resume: blocks preFrom..preTo were indexed by the earlier session
+	preTo    int64
+	start    int64             // chain head when the service starts
+	end      int64             // chain head at the end of the history
+	preErr   error             // IndexBlock failed while building the earlier session's index
 	prepFake func(*FakeClient) // optional: configure the fake node of the next session (transient RPC faults)
 }
 
@@ -106,8 +106,8 @@ type sessionOutcome struct {
 	maxRet   int64
 	first    int64
 	// OnStart did not return within stopGrace after Stop (observation, not a verdict)
-	stopHung  bool
-	stopStack string
+	stopHung     bool
+	stopStack    string
 	faultsServed int64
 }
 
@@ -388,7 +388,6 @@ func (s *Store) hasIndexable(b int64, cctx client.Context) bool {
 }
 
 var _ = common.Hash{}
-
 
 // rpcFaults enumerates transient RPC faults: for every block of the window and each of the two fetch calls of the
 // service (Block, BlockResults) one session in which that call fails once (and once more: twice) while later blocks
